@@ -100,6 +100,42 @@ impl<R> Drop for NotifyOnDrop<R> {
     }
 }
 
+/// Wraps the chunked decoder so that a body which was not read to its end is skipped when
+/// the request is destroyed, like `EqualReader` does for bodies with a `Content-Length`.
+/// Otherwise the unread chunks would be parsed as the next request.
+struct DrainOnDrop<R: Read> {
+    inner: R,
+    // true once the end of the body (or an error) has been seen
+    finished: bool,
+}
+
+impl<R: Read> Read for DrainOnDrop<R> {
+    fn read(&mut self, buf: &mut [u8]) -> io::Result<usize> {
+        let result = self.inner.read(buf);
+        match result {
+            Ok(0) if !buf.is_empty() => self.finished = true,
+            Err(_) => self.finished = true,
+            _ => (),
+        }
+        result
+    }
+}
+
+impl<R: Read> Drop for DrainOnDrop<R> {
+    fn drop(&mut self) {
+        if self.finished {
+            return;
+        }
+        let mut buf = [0; 1024];
+        loop {
+            match self.inner.read(&mut buf) {
+                Ok(0) | Err(_) => break,
+                Ok(_) => (),
+            }
+        }
+    }
+}
+
 /// Error that can happen when building a `Request` object.
 #[derive(Debug)]
 pub enum RequestCreationError {
@@ -237,7 +273,11 @@ where
     } else if transfer_encoding.is_some() {
         // if a transfer-encoding was specified, then "chunked" is ALWAYS applied
         // over the message (RFC2616 #3.6)
-        Box::new(FusedReader::new(Decoder::new(source_data))) as Box<dyn Read + Send + 'static>
+        let decoder = DrainOnDrop {
+            inner: Decoder::new(source_data),
+            finished: false,
+        };
+        Box::new(FusedReader::new(decoder)) as Box<dyn Read + Send + 'static>
     } else {
         // if we have neither a Content-Length nor a Transfer-Encoding,
         // assuming that we have no data
